@@ -101,8 +101,26 @@ func c16RootHashes(env *c16Env) map[string]uint64 {
 	return out
 }
 
-func c16Pools() []*vsync.Pool {
-	return []*vsync.Pool{parser.VerifParserPool(), plrt.VerifCtxPool(), input.VerifPointPool(), input.VerifMetaPool()}
+func c16Pools() []*vsync.Pool { return allPools() }
+
+// allPools: every package-level sync.Pool of the repo packages, discovered by
+// the overlay generator (robust against renamed or added pools).
+func allPools() []*vsync.Pool {
+	var names []string
+	all := map[string]*vsync.Pool{}
+	for _, m := range []map[string]*vsync.Pool{ast.VerifPools(), token.VerifPools(), errchain.VerifPools(), parser.VerifPools(), engine.VerifPools(),
+		plrt.VerifPools(), runtimev2.VerifPools(), funcs.VerifPools(), input.VerifPools()} {
+		for k, v := range m {
+			all[k] = v
+			names = append(names, k)
+		}
+	}
+	sort.Strings(names)
+	var out []*vsync.Pool
+	for _, n := range names {
+		out = append(out, all[n])
+	}
+	return out
 }
 
 // ---- (1) shared-write freedom ------------------------------------------------
